@@ -418,3 +418,17 @@ MUTANTS += [
     M('benign-solver-xor-from-zero', ['C18'], MLTOOL, '			for (k = w0; k < w; k++)', '			for (k = 0; k < w; k++)', expect=0),
     M('benign-solver-fail-ge', ['C18'], MLTOOL, '	if (j == p)\n	{\n		/* it', '	if (j >= p)\n	{\n		/* it', expect=0),
 ]
+
+MUTANTS += [
+    # ---- round-6 seeds as mutants (rules added / repaired for them), and the scoping they must respect
+    dict(name='coverage-exp-hole', props=['C14'], rule='R-TABLE-COVERAGE', expect=1, edits=[dict(patch='seeded/C14-r6-1/patch.diff')]),
+    dict(name='coverage-times-zero', props=['C14'], rule='R-TABLE-COVERAGE', expect=1, edits=[dict(patch='seeded/C14-r6-3/patch.diff')]),
+    dict(name='coverage-times-zero-not-c12', props=['C12'], rule=None, expect=0, edits=[dict(patch='seeded/C14-r6-3/patch.diff')]),
+    dict(name='prng-carry-after-reduction', props=['C19', 'C05'], rule='R-PRNG-STEP', expect=1, edits=[dict(patch='seeded/C19-r6-1/patch.diff')]),
+    dict(name='fill-scale-dense-copy', props=['C18'], rule='R-COPY-SCALE', expect=1, edits=[dict(patch='seeded/C18-r6-1/patch.diff')]),
+    dict(name='fill-scale-dense-copy-not-c01', props=['C01'], rule=None, expect=0, edits=[dict(patch='seeded/C18-r6-1/patch.diff')]),
+    dict(name='init-order-marker-wiped', props=['C15'], rule='R-INIT-ORDER', expect=1, edits=[dict(patch='seeded/C15-r6-3/patch.diff')]),
+    dict(name='callback-null-fallback-lost', props=['C01', 'C02', 'C10', 'C11'], rule='R-CB', expect=1, edits=[dict(patch='seeded/C01-r5-1/patch.diff')]),
+    dict(name='rs2m-encode-not-zeroed', props=['C02', 'C06'], rule='R-ENC-LOOP', expect=1, edits=[dict(patch='seeded/C02-r5-3/patch.diff')]),
+    dict(name='ldpc-setavail-not-c16', props=['C16'], rule=None, expect=0, edits=[dict(patch='seeded/C10-r5-3/patch.diff')]),
+]
